@@ -17,8 +17,8 @@ import (
 
 func init() {
 	core.Register(&core.Check{
-		ID: "C39",
-		Rule: "cases: (value, kind, format) for both default-value formats (Descriptor, GoTag): float32 bit patterns (2^20-stride sample + neighbourhoods of every exponent boundary and of PRNG patterns in quick, all 2^32 in thorough), doubles (PRNG bit patterns, boundaries), every integer kind at boundaries and PRNG values, all byte strings of length <= 2 plus PRNG bytes, strings, bools, every value of two enums; and field defaults carried through protodesc.NewFile -> ToFileDescriptorProto -> NewFile for files of 512 defaulted fields of every kind; oracle: parsed value identical to the original (floats bit for bit, all NaNs equal); distinct = distinct (kind, format, value); non-trivial = value is not the kind's zero",
+		ID:         "C39",
+		Rule:       "cases: (value, kind, format) for both default-value formats (Descriptor, GoTag): float32 bit patterns (2^20-stride sample + neighbourhoods of every exponent boundary and of PRNG patterns in quick, all 2^32 in thorough), doubles (PRNG bit patterns, boundaries), every integer kind at boundaries and PRNG values, all byte strings of length <= 2 plus PRNG bytes, strings, bools, every value of two enums; and field defaults carried through protodesc.NewFile -> ToFileDescriptorProto -> NewFile for files of 512 defaulted fields of every kind; oracle: parsed value identical to the original (floats bit for bit, all NaNs equal); distinct = distinct (kind, format, value); non-trivial = value is not the kind's zero",
 		Assume:     []string{"math.Float32bits/Float64bits comparisons"},
 		Exhaustive: func(tier string) bool { return false },
 		Batches: func(tier string) []core.Batch {
